@@ -129,7 +129,10 @@ def install(spec: Spec):
 
     def acquire_model(ex, n, awaited, recv=None):
         sem = ex.eval(n.func.value)
-        r = models.sem_acquire(ex, n, awaited, sem) if not awaited else models.sem_acquire_await(ex, sem)
+        def loop_ok(ok):
+            # C20 "successive event loops within one process": the registry outlives event loops, asyncio.Semaphore does not (A6)
+            ex.oblige('callsite:semaphore.acquire/requires', 'cached_semaphore_usable_in_this_event_loop', ok, ['C20'])
+        r = models.sem_acquire(ex, n, awaited, sem) if not awaited else models.sem_acquire_await(ex, sem, check_loop=loop_ok)
         if awaited:
             ex.ghost_set('slots_held', mk_int(ex.ghost('slots_held').term + 1))
         return r
@@ -143,8 +146,8 @@ def install(spec: Spec):
     spec.fn('helpers._acquire_asyncio_semaphore', file=F, qual='_acquire_asyncio_semaphore', is_async=True,
             params={'semaphore': 'Semaphore', 'sem_timeout': 'real', 'sem_key': 'str', 'semaphore_lax': 'bool',
                     'semaphore_limit': 'int', 'timeout': 'real', 'sem_start': 'real'}, returns='bool',
-            modifies=[('sem_value', '*')], ghost_modifies=['slots_held'], interference='helpers',
-            callsites={'semaphore.acquire': {'model': acquire_model, 'writes': ['sem_value'], 'ghost_writes': ['slots_held'], 'suspends': True}},
+            modifies=[('sem_value', '*'), ('sem_loop', '*')], ghost_modifies=['slots_held'], interference='helpers',
+            callsites={'semaphore.acquire': {'model': acquire_model, 'writes': ['sem_value', 'sem_loop'], 'ghost_writes': ['slots_held'], 'suspends': True}},
             ensures=[
                 ('acquired_iff_true', 'slots_held == old(slots_held) + (1 if result else 0)', ['C20']),
                 ('false_only_if_lax', 'implies(not result, semaphore_lax)', ['C20']),
@@ -174,7 +177,7 @@ def install(spec: Spec):
             notes="semaphore_scope='multiprocess' (file locks, threads) is out of the engine's reach: never entered under the wrapper's precondition")
 
     spec.interference['helpers'] = __import__('pyvc.spec', fromlist=['Interference']).Interference(
-        'helpers', havoc=['sem_value', 'g$retry_semaphores', 'g$active_ops', 'g$last_overload_check'])
+        'helpers', havoc=['sem_value', 'sem_loop', 'g$retry_semaphores', 'g$active_ops', 'g$last_overload_check'])
 
     def body_pre(ex, n):
         # the wrapped function is entered only holding a slot, or in the documented lax-timeout case, or without a limit
@@ -191,7 +194,7 @@ def install(spec: Spec):
                   'semaphore_timeout': 'opt[real]'},
             returns='any', interference='helpers',
             requires=[('retries_nonneg', 'retries >= 0', ['C19']), ('not_multiprocess', "semaphore_scope != 'multiprocess'", ['C20'])],
-            modifies=[('sem_value', '*'), ('g$retry_semaphores', '*'), ('g$active_ops', '*'), ('g$last_overload_check', '*')],
+            modifies=[('sem_value', '*'), ('sem_loop', '*'), ('g$retry_semaphores', '*'), ('g$active_ops', '*'), ('g$last_overload_check', '*')],
             ghost_modifies=['calls', 'sleeps', 'last_exc', 'last_result', 'slots_held'],
             callsites={'semaphore.release': {'model': release_model, 'writes': ['sem_value'], 'ghost_writes': ['slots_held']},
                        '_execute_with_retries': {'pre': body_pre}},
